@@ -26,10 +26,11 @@ ParamsOf(t) ==
        mips |-> t.isa = "mips32",
        rn |-> [l \in NameU |-> t.names[ix[l]][2]]]
 \* tokens with the sizes the disassembler observed for the instructions
+\* (nothing to observe after a refusal: the nominal sizes are kept)
 ObsToks(t, run) ==
   [i \in DOMAIN t.toks |->
      [k |-> t.toks[i].k, l |-> t.toks[i].l, a |-> t.toks[i].a,
-      n |-> IF t.toks[i].k \in InsnKinds THEN run.dec[i].n ELSE t.toks[i].n,
+      n |-> IF t.toks[i].k \in InsnKinds /\ run.exc = "" THEN run.dec[i].n ELSE t.toks[i].n,
       ch |-> t.toks[i].ch, vc |-> t.toks[i].ch]]
 
 Ctx(t) ==
@@ -57,10 +58,29 @@ SomeOk(X) == \E i \in DOMAIN Runs(X) : Runs(X)[i].V.exc = ""
 (***************************************************************************)
 TempLabels(X) == {X.Vw.toks[i].l : i \in {j \in Idx(X.Vw) : X.Vw.toks[j].k = "label" /\ X.Vw.toks[j].l \in TempNames}}
 GlobalLabels(X) == {X.Vw.toks[i].l : i \in {j \in Idx(X.Vw) : X.Vw.toks[j].k = "label" /\ X.Vw.toks[j].l \notin TempNames}}
+\* targets for which gtirb-rewriting has an ABI (anything else is refused
+\* with NotImplementedError: outside the quantifier)
+HasAbi(t) == <<t.isa, t.fmt>> \in {<<"x64", "elf">>, <<"x64", "pe">>, <<"ia32", "pe">>,
+                                   <<"arm64", "elf">>, <<"mips32", "elf">>}
+RwRuns(X) == X.t.rw # <<>> /\ X.W.exc = "" /\ HasAbi(X.t)
 RwDomain(X) ==
-  /\ X.t.rw # <<>> /\ X.W.exc = ""
-  /\ \A i \in Idx(X.Vw) : X.Vw.toks[i].k \notin ({"sec", "uleb"} \cup CfiKinds)
+  /\ RwRuns(X)
+  /\ \A i \in Idx(X.Vw) : X.Vw.toks[i].k \notin ({"sec", "uleb", "align"} \cup CfiKinds)
   /\ \A i \in RefIdx(X.Vw) : ~Unresolved(X.Vw, i)
+  /\ X.Vw.len["text"] > 0
+\* legitimate refusals of a rewrite that inserts the text N times
+RwAllowed(X, r) ==
+  {""}
+  \cup (IF r.n > 1 /\ GlobalLabels(X) # {} THEN {"MultipleDefinitionsError"} ELSE {})
+  \cup (IF \E i \in Idx(X.Vw) : X.Vw.toks[i].k = "align" THEN {"PaddingError"} ELSE {})
+  \cup (IF \E i \in RefIdx(X.Vw) : Unresolved(X.Vw, i) THEN {"UndefSymbolError"} ELSE {})
+  \cup (IF \E i \in Idx(X.Vw) : X.Vw.toks[i].k \in CfiKinds
+        THEN {"AsmSyntaxError", "UnsupportedAssemblyError"} ELSE {})
+  \* documented: "Cannot create a zero-sized block with a label" in another section
+  \cup (IF \E i \in Idx(X.Vw) : /\ X.Vw.toks[i].k = "label" /\ X.Vw.pos[i].sec # "text"
+                                 /\ X.Vw.len[X.Vw.pos[i].sec] = 0
+        THEN {"NotImplementedError"} ELSE {})
+RwCompletes(X) == \A i \in DOMAIN X.t.rw : X.t.rw[i].exc \in RwAllowed(X, X.t.rw[i])
 \* distances label - expression in the stand-alone result
 Deltas(X, l) ==
   LET nm == ExpName(X.P, l)
@@ -134,6 +154,14 @@ KF_C12_2(V, run) ==
   /\ \E i \in Idx(V) : V.toks[i].k = "ascii" /\ V.toks[i].n = 0
   /\ AllowedRefusals(V) \subseteq {"UnsupportedAssemblyError"}
 
+\* KF-C13-1: a patch one of whose sections is empty (text: labels only,
+\* directives only, or contents for other sections only; another section:
+\* switched to but left without contents) makes the rewrite crash.
+KF_C13_1(X) ==
+  /\ RwRuns(X) /\ \E sn \in X.Vw.used : X.Vw.len[sn] = 0
+  /\ \A i \in DOMAIN X.t.rw :
+        X.t.rw[i].exc \in RwAllowed(X, X.t.rw[i]) \cup {"AssertionError", "IndexError"}
+
 KfTags(X, clause) ==
   (IF clause = "C12_EdgeShape"
       /\ \A i \in DOMAIN Runs(X) : Runs(X)[i].V.exc = "" =>
@@ -143,7 +171,10 @@ KfTags(X, clause) ==
   (IF clause \in {"C12_Completes", "C13_Completes"}
       /\ \A i \in DOMAIN Runs(X) :
             (Completes(Runs(X)[i].V) \/ KF_C12_2(Runs(X)[i].V, Runs(X)[i].r))
+      /\ (clause = "C13_Completes" /\ RwRuns(X) => RwCompletes(X))
    THEN {"KF-C12-2"} ELSE {})
+  \cup
+  (IF clause = "C13_Completes" /\ Completes(X.Vc) /\ KF_C13_1(X) THEN {"KF-C13-1"} ELSE {})
 
 (***************************************************************************)
 (* Clauses  <<name, in-domain, holds>>                                     *)
@@ -165,13 +196,18 @@ Clauses(X) ==
          <<"C13_Undef", dom, C13_Undef(X.Vw) /\ C13_Undef(X.Vc)>>,
          <<"C13_Chunking", dom /\ X.hasC /\ ChunkingDomain(X.Vc), C13_Chunking(X.Vc, X.W.R, X.W.exc)>>,
          <<"C13_UniqueNames", dom /\ RwDomain(X), C13_UniqueNames(X)>>,
-         <<"C13_Completes", dom /\ X.hasC, Completes(X.Vc)>> >>
+         <<"C13_Completes", dom /\ (X.hasC \/ RwRuns(X)),
+              Completes(X.Vc) /\ (RwRuns(X) => RwCompletes(X))>> >>
 
 RunDiff(V, run) ==
   [mode |-> run.mode, exc |-> run.exc, stage |-> run.stage, allowed |-> AllowedRefusals(V)]
 Diff(name, X) ==
-  CASE name \in {"C12_Completes", "C13_Completes", "C13_MultipleDefinitions", "C13_Undef"} ->
+  CASE name \in {"C12_Completes", "C13_MultipleDefinitions", "C13_Undef"} ->
          <<RunDiff(X.Vw, X.W), RunDiff(X.Vc, X.C)>>
+    [] name = "C13_Completes" ->
+         <<RunDiff(X.Vw, X.W), RunDiff(X.Vc, X.C)>>
+            \o [i \in DOMAIN X.t.rw |-> [mode |-> "rewrite", exc |-> X.t.rw[i].exc, stage |-> ToString(X.t.rw[i].n),
+                                          allowed |-> RwAllowed(X, X.t.rw[i])]]
     [] name = "C12_EdgeShape" ->
          [i \in DOMAIN Runs(X) |->
             LET V == Runs(X)[i].V
